@@ -1,7 +1,7 @@
 //! FEN string mutation operators (no engine code involved).
 use crate::rng::Rng;
 
-const BOARD_ALPHABET: &[&str] = &["p", "n", "b", "r", "q", "k", "P", "N", "B", "R", "Q", "K", "/", "0", "1", "2", "3", "4", "5", "6", "7", "8", "9", "x", "X", "-", "é", "♔", ".", "_"];
+const BOARD_ALPHABET: &[&str] = &["p", "n", "b", "r", "q", "k", "P", "N", "B", "R", "Q", "K", "/", "0", "1", "2", "3", "4", "5", "6", "7", "8", "9", "x", "X", "-", "é", "♔", ".", "_", "²", "³", "¹", "¼", "½", "４", "８", "０", "٣", "Ⅷ", "৪"];
 const ANY_ALPHABET: &[&str] = &["a", "b", "c", "h", "i", "q", "z", "A", "H", "w", "W", "k", "K", "Q", "-", "0", "1", "3", "6", "9", "é", "♔", "/", "+", "=", "3w"];
 
 /// One mutation of a FEN string; returns the mutant and the name of the operator.
